@@ -9,7 +9,10 @@ use crate::{
     tast::{self, TastIdent},
 };
 use std::cell::Cell;
+#[cfg(not(goml_verif))]
 use std::collections::HashMap;
+#[cfg(goml_verif)]
+use crate::verif_hash::HashMap;
 
 #[derive(Debug, Clone, serde::Serialize, serde::Deserialize)]
 pub struct EnumDef {
